@@ -223,7 +223,7 @@ package reader
 //@   requires tsWf(m)
 //@   ensures [well-formed-after] tsWf(m)
 //@   ensures [the-last-tick-is-the-one-sent] cmHas(m.channelTS2, channelName) ==> tsLts(m, channelName) == sendTS
-//@   ensures [the-clock-covers-the-tick-and-never-goes-back] cmHas(m.channelTS2, channelName) ==> tsCts(m, channelName) >= sendTS && tsCts(m, channelName) >= old(tsCts(m, channelName))
+//@   ensures [the-clock-never-goes-back] tsCts(m, channelName) >= old(tsCts(m, channelName))
 //@   inline
 
 // lets the caller re-shift its pack when an earlier tick overtook it: the callback runs only if lts >= beginTS, and
